@@ -378,6 +378,11 @@ class Scenario:
                 entry["removed_at"] = sc.loop.time()
                 sc.ctx.probe("listener_self_removed_in_callback")
                 entry["unsub"]()
+            if event and spec.get("adds") and spec["adds"] not in sc.listeners:
+                # a listener that registers a further listener from inside its callback (while the dispatch is running)
+                sc.ctx.probe("listener_registered_in_callback")
+                sc._add_listener(spec["adds"], {})
+                sc.listeners[spec["adds"]]["added_in_callback"] = True
             if event and entry["raises"]:
                 sc.ctx.probe("listener_raised")
                 raise ValueError("listener failure injected by the simulator")
@@ -848,6 +853,12 @@ class Scenario:
                     if isinstance(val, int) and val < 0:
                         got.append((val, k))
             exp_tokens = per_listener_expected[n]
+            if l.get("added_in_callback"):
+                # registered while an event was being dispatched: that one event may or may not reach it as well
+                optional = {ev["token"] for ev in self.events if ev["delivered"] and ev["valid"] and n not in (ev["listeners"] or [])
+                            and ev.get("t_delivered") is not None and abs(ev["t_delivered"] - l["added_at"]) <= TOL}
+                seen = {v.get("value") for t, e in l["log"] for v in e.values() if isinstance(v, dict)}
+                exp_tokens = sorted(set(exp_tokens) | (optional & seen), reverse=True) if optional & seen else exp_tokens
             if l["self_remove"]:
                 exp_tokens = exp_tokens[:1]  # it unregisters itself while handling its first event
             ctx.obligations += 1
